@@ -121,6 +121,15 @@ func (r *Run) RunQ() bool {
 	case rt.Quiescent:
 		return true
 	case rt.StepCap:
+		if boundedProgress[r.Prop] {
+			// The workloads of these properties reach quiescence within a few
+			// hundred steps; their statements promise that operations return
+			// ("nothing blocks", "WaitStatus returns", "Loop returns"). A run that
+			// is still busy after MaxSteps steps - a retry or polling loop that
+			// never ends - has not kept that promise within the step budget.
+			r.Fail("no-progress-within-step-budget", "the run did not reach quiescence within %d scheduling steps (simulated time %v): some goroutine keeps running without completing; last sites: %s", MaxSteps, r.Sim.SimTime, r.Sim.RecentSites(12))
+			return false
+		}
 		r.Inconclusive("step-cap")
 		return false
 	case rt.Panicked:
@@ -167,6 +176,10 @@ var anchorFiles = map[string][]string{
 // panicking run is not judged by their checks (C08, C01, C04, C05 and the
 // composite checks report server/client panics).
 var noPanicClause = map[string]bool{"C03": true, "C06": true, "C07": true, "C09": true, "C10": true}
+
+// boundedProgress: properties with a liveness clause, for which exhausting the
+// step budget is a violation rather than an unjudged run.
+var boundedProgress = map[string]bool{"C05": true, "C08": true, "C20": true}
 
 func panicConcerns(prop, stack string) bool {
 	if noPanicClause[prop] {
